@@ -61,7 +61,9 @@ type CallPool struct {
 	sharedS []jp.ApplyOptions // their values when the pool was opened
 	patches []jp.Patch
 	guards  []*mon.Guarded // re-homed raw messages of the patches
-	snaps   []patchSnap
+	// Aliasing: non-empty when a decoded patch changed because the buffer it was decoded from was overwritten
+	Aliasing string
+	snaps    []patchSnap
 }
 
 // BuildPool derives the pool from (seed, pool id) alone.
@@ -234,6 +236,22 @@ func BuildPool(seed int64, id int) *CallPool {
 		p.Calls = append(p.Calls, PoolCall{API: "ApplyWithOptions", A: roots[0], B: -1, Patch: pidx, Opts: sharedOptSets[1], Class: "apply-to-null-or-scalar-root", SharedOpt: 1})
 		p.Calls = append(p.Calls, PoolCall{API: "Apply", A: objs[1], B: -1, Patch: pidx, Opts: V5Opts{NegIdx: true, EscapeHTML: true}, Class: "apply-after-root-failures", SharedOpt: -1})
 	}
+	// a document that spells a member name twice (what its value is, nobody says - but the same call gives the
+	// same bytes every time), and losing members
+	ddoc := addIn(`{"a":1,"c":3,"d":4,"e":5,"f":6,"g":{"x":1,"y":2,"x":3,"z":4,"w":5},"a":2}`)
+	for _, dt := range []string{`[{"op":"remove","path":"/a"}]`, `[{"op":"move","from":"/a","path":"/zz"}]`, `[{"op":"remove","path":"/g/x"},{"op":"add","path":"/g/n","value":1}]`, `[{"op":"remove","path":"/c"}]`} {
+		pi := addIn(dt)
+		p.PatchInputs = append(p.PatchInputs, pi)
+		pidx := len(p.PatchInputs) - 1
+		p.Calls = append(p.Calls, PoolCall{API: "Apply", A: ddoc, B: -1, Patch: pidx, Opts: V5Opts{NegIdx: true, EscapeHTML: true}, Class: "repeated-member-names", SharedOpt: -1})
+		p.Calls = append(p.Calls, PoolCall{API: "ApplyIndent", A: ddoc, B: -1, Patch: pidx, Indent: " ", Opts: V5Opts{NegIdx: true, EscapeHTML: true}, Class: "repeated-member-names", SharedOpt: -1})
+	}
+	// the array form of CreateMergePatch, with several positions that cannot be diffed
+	for _, ap := range [][2]string{{`[1,2]`, `[3,4]`}, {`[{"a":1},2,3,{"b":1}]`, `[{"a":2},4,5,{"b":null}]`}, {`[{"a":1},{"b":2},{"c":3}]`, `[{"a":2},{"b":2},{"c":{"d":4}}]`}} {
+		a, b := addIn(ap[0]), addIn(ap[1])
+		p.Calls = append(p.Calls, PoolCall{API: "CreateMergePatch", A: a, B: b, Patch: -1, Class: "array-form", SharedOpt: -1})
+		p.Calls = append(p.Calls, PoolCall{API: "CreateMergePatch", A: b, B: a, Patch: -1, Class: "array-form", SharedOpt: -1})
+	}
 	for _, pi := range p.PatchInputs {
 		p.Calls = append(p.Calls, PoolCall{API: "DecodePatch", A: pi, B: -1, Patch: -1, Class: "valid", SharedOpt: -1})
 	}
@@ -266,9 +284,26 @@ func (p *CallPool) Open() error {
 		p.bufs = append(p.bufs, g)
 	}
 	for _, pi := range p.PatchInputs {
-		pt, err := jp.DecodePatch([]byte(p.Inputs[pi]))
+		// the caller's buffer is reused as soon as DecodePatch has returned: nothing of the decoded Patch - not its
+		// values, not its member names - may follow the buffer
+		tb := []byte(p.Inputs[pi])
+		pt, err := jp.DecodePatch(tb)
 		if err != nil {
 			return fmt.Errorf("pool patch does not decode: %v", err)
+		}
+		for i := range tb {
+			tb[i] = 'X'
+		}
+		if want := mustParse(p.Inputs[pi]); p.Aliasing == "" {
+			for oi, op := range pt {
+				w, _ := want.A[oi].Get("op")
+				pw, _ := want.A[oi].Get("path")
+				gp, _ := op.Path()
+				if op.Kind() != w.S || gp != pw.S {
+					p.Aliasing = fmt.Sprintf("patch %s, operation %d: after the input buffer was overwritten Kind() is %q and Path() %q (decoded from %q and %q)", clip(p.Inputs[pi], 200), oi, op.Kind(), gp, w.S, pw.S)
+					break
+				}
+			}
 		}
 		for _, op := range pt {
 			for _, rm := range op {
